@@ -1,7 +1,7 @@
 """Property table and the generic check flow."""
 import json, os, re, shutil, time
 from . import common as C
-from . import judge_pool, judge_valid
+from . import judge_pool, judge_valid, judge_hist
 
 
 class Result:
@@ -41,6 +41,46 @@ def proj_c19(line):
     return f"{kind} count={m.group(1)} allocs={m.group(4)} releases={m.group(5)} max={m.group(6)} usage={m.group(7)}"
 
 
+_CUR = re.compile(r"@(-?\d+)@(-?\d+)@")
+
+def make_proj(fields, snap="full", api=False, view=False):
+    """projection of a hist observation line: the named head fields (res, patches, ccw, events, mut, nq, cq), the pool
+    snapshot (full / nocursor / none), optionally the API and cache sections"""
+    def proj(line):
+        if not line.startswith("ev "):
+            return line
+        parts = line.split(" ## ")
+        head = parts[0]
+        out = []
+        for f in fields:
+            if f == "res":
+                m = re.search(r"res=(\S+)", head)
+                out.append("res=" + (m.group(1) if m else "?"))
+            else:
+                b = judge_hist.bracket(head, f)
+                out.append(f"{f}=[{b}]")
+        if "unexpected=" in head:
+            out.append("unexpected")
+        if snap != "none" and len(parts) > 1:
+            sn = parts[1]
+            if snap == "nocursor":
+                sn = _CUR.sub(lambda m: "@" + m.group(1) + "@", sn)
+            out.append(sn)
+        if api and len(parts) > 2:
+            out.append(parts[2])
+        if view and len(parts) > 3:
+            out.append(parts[3])
+        return " ## ".join(out)
+    return proj
+
+HIST_RULE = ("random histories over a small universe built to collide: <=5 ClusterCIDRs from a palette of identical / nested / overlapping / disjoint "
+             "ranges with 1..16 blocks, single and dual stack, 20 selector shapes (all six operators, repeated keys, keyword keys, empty terms, "
+             "multi-term, unrepresentable); <=6 nodes with 11 label sets, pre-set pod CIDRs (blocks, double blocks, outside); events: API changes, "
+             "deliveries (stale caches, tombstones, resyncs), node / ClusterCIDR work items with write outcomes ok/fail/lost per attempt, mid-item "
+             "cache refresh, foreign writers and finalizers, restarts with and without service ranges. A case = one history (about 50 events); "
+             "non-trivial if it contains a node PATCH and a failed item or a node deletion; distinct by its event list. Violations are judged only "
+             "inside the property's envelope (DESIGN 3.5); counts of out-of-envelope histories are reported under outside_envelope")
+
 # ---------------------------------------------------------------- property table
 
 PROPS = {
@@ -56,6 +96,29 @@ PROPS = {
     "C19": dict(mod="IpamVerif.Props.C19", engine="pool", streams=[("pool", "pool", proj_c19)], judge=("pool", {"C19"}),
                 rule="same histories as C14; the four series are read from the metric vectors after every call, the /metrics handler is "
                      "served once per run; a case = one pool history, non-trivial if >= 2 successful state-changing calls, distinct by operation list"),
+    "C01": dict(mod="IpamVerif.Props.C01", engine="hist", streams=[("hist", "hist", make_proj(["patches"], "full", api=True)), ("restart", "hist", make_proj(["patches"], "full", api=True))],
+                judge=("hist", {"C01"}), rule=HIST_RULE),
+    "C02": dict(mod="IpamVerif.Props.C02", engine="hist", streams=[("hist", "hist", make_proj(["patches"], "nocursor"))], judge=("hist", {"C02"}), rule=HIST_RULE),
+    "C03": dict(mod="IpamVerif.Props.C03", engine="hist", streams=[("restart", "hist", make_proj(["res", "patches", "ccw"], "full", api=True, view=True))],
+                judge=("hist", {"C03"}), rule=HIST_RULE + "; profile 'restart': a restart after every eighth event and, with probability 1/2, right after a lost (crash after the write) or failed (crash before the write) API write"),
+    "C04": dict(mod="IpamVerif.Props.C04", engine="hist", streams=[("hist", "hist", make_proj(["patches"], "nocursor", api=True))], judge=("hist", {"C04"}), rule=HIST_RULE),
+    "C05": dict(mod="IpamVerif.Props.C05", engine="hist", streams=[("hist", "hist", make_proj(["res", "patches", "events", "nq"], "full"))], judge=("hist", {"C05"}), rule=HIST_RULE),
+    "C06": dict(mod="IpamVerif.Props.C06", engine="hist", streams=[("hist", "hist", make_proj(["patches", "ccw"], "nocursor", api=True))], judge=("hist", {"C06"}), rule=HIST_RULE),
+    "C07": dict(mod="IpamVerif.Props.C07", engine="hist", streams=[("hist", "hist", make_proj(["patches"], "full"))], judge=("hist", {"C07"}), rule=HIST_RULE),
+    "C08": dict(mod="IpamVerif.Props.C08", engine="hist", streams=[("hist", "hist", make_proj(["patches", "ccw", "events"], "nocursor", view=True))], judge=("hist", {"C08"}), rule=HIST_RULE),
+    "C09": dict(mod="IpamVerif.Props.C09", engine="hist", streams=[("svc", "hist", make_proj(["patches"], "full"))], judge=("hist", {"C09"}),
+                rule=HIST_RULE + "; profile 'svc': every first start and one restart in six is given a primary and/or secondary service range (inside, equal to, containing, smaller than a block, other family)"),
+    "C10": dict(mod="IpamVerif.Props.C10", engine="hist", streams=[("hist", "hist", make_proj(["res", "ccw", "cq"], "nocursor", api=True)), ("restart", "hist", make_proj(["res", "ccw", "cq"], "nocursor", api=True))],
+                judge=("hist", {"C10"}), rule=HIST_RULE),
+    "C11": dict(mod="IpamVerif.Props.C11", engine="hist", streams=[("drain", "hist", make_proj(["res", "patches", "ccw", "nq", "cq"], "nocursor", api=True))], judge=("hist", {"C11"}),
+                rule=HIST_RULE + "; profile 'drain': after the random prefix changes stop, writes succeed, every stale object is delivered and every queued key processed, round after round until nothing moves; the steady state is then judged"),
+    "C12": dict(mod="IpamVerif.Props.C12", engine="hist", streams=[("mal", "hist", make_proj(["res", "patches", "ccw", "events"], "nocursor")), ("hist", "hist", make_proj(["res"], "none"))],
+                judge=("hist", {"C12"}),
+                rule=HIST_RULE + "; profile 'mal': every sixth event injects hostile content - range strings (garbage, missing prefix, prefix out of range, other family, IPv4-mapped, unmasked, upper case), "
+                     "perNodeHostBits over the whole int32 range, unrepresentable selectors, node pod CIDRs that do not parse or belong to no ClusterCIDR, tombstones, service ranges of either family; every step under recover and a watchdog"),
+    "C20": dict(mod="IpamVerif.Props.C20", engine="hist", streams=[("hist", "hist", make_proj(["mut"], "none")), ("restart", "hist", make_proj(["mut"], "none"))], judge=("hist", {"C20"}), rule=HIST_RULE),
+    "C17": dict(mod="IpamVerif.Props.C17", engine="hist", streams=[("hist", "hist", make_proj(["res", "patches"], "nocursor"))], judge=("hist", {"C02", "C05"}),
+                rule=HIST_RULE + "; for C17 the selector keys in the pool snapshot are compared byte for byte with the model's printed keys and the serving / refusing decisions are judged for eligibility in both directions"),
     "C18": dict(mod="IpamVerif.Props.C18", engine="valid", streams=[("valid", "valid", proj_all)], judge=("valid", None),
                 rule="grid of ipv4 strings x ipv6 strings (valid of several prefix lengths, other family, malformed variants, empty, IPv4-mapped) x host bits "
                      "(negative, 0, 3, 4, 5, limits-1/limit/limit+1 of each range, int32 extremes) x selector shapes (nil, no terms, empty term, all six operators "
@@ -137,11 +200,11 @@ def correspond(res, spec):
     for (stream, mode, proj) in spec["streams"]:
         wd = os.path.join(res.workdir, stream)
         t = time.time()
-        ok, log = C.run_stream(stream, res.seed, res.tier, wd)
+        ok, log, okd, logd, ckey = C.run_stream_cached(stream, mode, res.seed, res.tier, wd)
         if not ok:
             res.corr_breaks.append((stream, -1, "harness run failed", log[-1500:], ""))
             continue
-        ok, log = C.run_driver(mode, wd)
+        ok, log = okd, logd
         ops = C.op_lines(os.path.join(wd, "ops.txt"))
         impl = [l for l in C.read_lines(os.path.join(wd, "impl.txt")) if l != ""]
         model = [l for l in C.read_lines(os.path.join(wd, "model.txt")) if l != ""]
@@ -155,6 +218,18 @@ def correspond(res, spec):
             res.corr_breaks.append((stream, -1, "model driver failed", log[-1500:], ""))
             continue
         pi, pm = [proj(x) for x in impl], [proj(x) for x in model]
+        if mode == "hist":
+            # histories that contain a range string outside the modelled input domain (marked X@ by the harness) are judged, not compared
+            skip, excluded = False, 0
+            for k, o in enumerate(ops):
+                if o.startswith("hist "):
+                    skip = False
+                if " X@" in o and not skip:
+                    skip = True
+                    excluded += 1
+                if skip and k < len(pi) and k < len(pm):
+                    pm[k] = pi[k]
+            res.cov["streams"][stream]["histories_outside_modelled_inputs"] = excluded
         d = first_diff(pi, pm)
         if d is None:
             res.cov["traces_validated_against_impl"] += stats.get("cases", 0)
@@ -164,6 +239,23 @@ def correspond(res, spec):
                                     pm[d] if d < len(pm) else "<eof>", rp))
         # endpoint marker lines etc. are part of impl; judge on the implementation alone
         kind, want = spec["judge"]
+        if kind == "hist":
+            import pickle
+            jc = os.path.join(wd, "judge.pickle")
+            if os.path.exists(jc):
+                allv, allo = pickle.load(open(jc, "rb"))
+            else:
+                allv, allo = judge_hist.judge(ops, impl, judge_hist.ALL)
+                try:
+                    pickle.dump((allv, allo), open(jc, "wb"))
+                except OSError:
+                    pass
+            viol = [v for v in allv if v["prop"] in want]
+            outside = {p: c for p, c in allo.items() if p in want}
+            res.cov["streams"][stream]["outside_envelope"] = {p: c for p, c in outside.items() if p in want}
+            for v in viol[:5]:
+                rp = write_replay(res, stream, ops, impl, model, v["line"], v["msg"])
+                res.violations.append(dict(msg=v["msg"], replay=rp))
         if kind == "valid":
             for v in judge_valid.judge(ops, impl)[:5]:
                 rp = write_replay(res, stream, ops, impl, model, v["line"], v["msg"])
@@ -205,6 +297,10 @@ def replay(res, spec, path):
     kind, want = spec["judge"]
     if kind == "pool":
         for v in judge_pool.judge(ops, impl, want)[:5]:
+            res.violations.append(dict(msg=v["msg"], replay=write_replay(res, stream, ops, impl, model, v["line"], v["msg"])))
+    if kind == "hist":
+        viol, outside = judge_hist.judge(ops, impl, want)
+        for v in viol[:5]:
             res.violations.append(dict(msg=v["msg"], replay=write_replay(res, stream, ops, impl, model, v["line"], v["msg"])))
 
 
